@@ -93,9 +93,9 @@ Lemma gen_equals_agrees : forall a b c d e f g h i,
   gen_equals a b c d e f g h i = equals_skel a b c d e f g h i.
 Proof. intros [] [] [] [] [] [] [] [] []; reflexivity. Qed.
 
-Lemma gen_in_agrees : forall a b c d e f g,
-  gen_in a b c d e f g = in_skel a b c d e f g.
-Proof. intros [] [] [] [] [] [] []; reflexivity. Qed.
+Lemma gen_in_agrees : forall a b c d e f g h,
+  gen_in a b c d e f g h = in_skel a b c d e f g h.
+Proof. intros [] [] [] [] [] [] [] []; reflexivity. Qed.
 
 Lemma cls_eqb_sym : forall a b, cls_eqb a b = cls_eqb b a.
 Proof. intros a b. unfold cls_eqb. apply Nat.eqb_sym. Qed.
@@ -142,7 +142,7 @@ Definition iinterp (r : ires) (s : sval) (ls : list obj) : list sval :=
 
 Lemma pred_in_is_skel : forall ls s positive,
   pred_in ls s positive =
-  iinterp (in_skel (is_known_b (sbase s)) (existsb (py_eq (known_obj (sbase s))) ls) positive
+  iinterp (in_skel (is_known_b (sbase s)) (existsb (py_eq (known_obj (sbase s))) ls) positive true
              (match filter (assignable_lit s) ls with [] => false | _ => true end)
              (match in_pattern_type ls with Some c => is_enum c | None => false end)
              (match sbase s with VTyped _ => true | _ => false end)
@@ -252,3 +252,21 @@ Qed.
 (* ---- what _constraint_from_compare_op hands to InPredicate ---- *)
 Lemma in_arg_tie : gen_in_arg = model_in_arg.
 Proof. reflexivity. Qed.
+
+(* the str-container side model is the same skeleton with elementwise = false *)
+Lemma pred_instr_typed_is_skel : forall s sv positive,
+  is_known_b (sbase sv) = false ->
+  pred_instr_with model_in_arg model_typed_rule s sv positive =
+  iinterp (in_skel false false positive false
+             (match filter (assignable_lit sv) (str_chars s) with [] => false | _ => true end)
+             (match in_pattern_type (str_chars s) with Some c => is_enum c | None => false end)
+             (match sbase sv with VTyped _ => true | _ => false end)
+             (match in_pattern_type (str_chars s), sbase sv with Some c, VTyped c' => cls_eqb c c' | _, _ => false end))
+          sv (str_chars s).
+Proof.
+  intros s sv positive Hk. unfold pred_instr_with, model_in_arg, model_typed_rule.
+  destruct positive.
+  - destruct (sbase sv); try discriminate; reflexivity.
+  - rewrite (pred_in_is_skel (str_chars s) sv false).
+    destruct (sbase sv) eqn:Eb; try discriminate; unfold in_skel; simpl; reflexivity.
+Qed.
